@@ -48,3 +48,4 @@ Proof. eexists. split; [left; reflexivity|]. vm_compute. reflexivity. Qed.
 Print Assumptions C07_truncated_is_not_enough_bytes.
 Print Assumptions C07_error_only_when_decided.
 Print Assumptions C07_neb_prefix_closed.
+Print Assumptions C07_retry_pure.
